@@ -228,7 +228,11 @@ def ast_stmt(s):
         return ("Break",)
     if k == "continue":
         return ("Continue",)
-    return ("Other",)          # return / call / wait / waitin: outside the grammar
+    if k == "return":
+        return ("Return",)
+    if k == "call":
+        return ("Call", ast_block(s[1]))
+    return ("Other",)          # wait / waitin: outside the grammar
 
 
 def g_fo(s, f):
@@ -239,6 +243,8 @@ def g_fo(s, f):
         return g_fo(s[2], g_fo(s[1], f))
     if (k == "Await" and s[1] == "true") or k == "WhileFalse":
         return f
+    if k == "Call":
+        return g_fo(s[1], f)
     return False
 
 
@@ -252,6 +258,21 @@ def g_zfall(s, f):
         return g_zfall(s[1], False) or g_zfall(s[2], False)
     if (k == "Await" and s[1] != "false") or k in ("WhileFalse", "While"):
         return f
+    if k == "Call":
+        return g_zfall(s[1], f) or g_zret(s[1], f)
+    return False
+
+
+def g_zret(s, f):
+    k = s[0]
+    if k == "Return":
+        return True
+    if k == "Seq":
+        return g_zret(s[1], f) or (g_zfall(s[1], f) and g_zret(s[2], g_fo(s[1], f)))
+    if k == "If":
+        return g_zret(s[1], False) or g_zret(s[2], False)
+    if k == "While":
+        return f and g_zret(s[1], False)
     return False
 
 
@@ -266,16 +287,22 @@ def g_zcnt(s, f):
     return False
 
 
-def g_wf(s, inloop):
+def g_wf(s, inloop, incall, first):
     k = s[0]
     if k in ("Skip", "Eff", "Await", "WhileFalse"):
         return True
-    if k in ("Seq", "If"):
-        return g_wf(s[1], inloop) and g_wf(s[2], inloop)
+    if k == "Seq":
+        return g_wf(s[1], inloop, incall, first) and g_wf(s[2], inloop, incall, g_fo(s[1], first))
+    if k == "If":
+        return g_wf(s[1], inloop, incall, False) and g_wf(s[2], inloop, incall, False)
     if k == "While":
-        return g_wf(s[1], True) and not g_zcnt(s[1], False)
+        return g_wf(s[1], True, incall, False) and not g_zcnt(s[1], False)
     if k in ("Break", "Continue"):
         return inloop
+    if k == "Return":
+        return incall and not first
+    if k == "Call":
+        return g_wf(s[1], False, True, first)
     return False
 
 
@@ -287,6 +314,8 @@ def g_fneed(s, nf):
         return 1 + max(g_fneed(s[1], nf), g_fneed(s[2], nf))
     if k == "While":
         return 1 + max(g_fneed(s[1], 1 + nf), nf)
+    if k == "Call":
+        return 1 + g_fneed(s[1], 1 + nf)
     return 1 + nf
 
 
@@ -301,12 +330,14 @@ def g_fchk(s, nf):
         return g_fneed(s[1], 1 + nf) <= REF_FUEL and nf <= REF_FUEL and g_fchk(s[1], nl)
     if k in ("Await", "WhileFalse"):
         return nf <= REF_FUEL
+    if k == "Call":
+        return g_fchk(s[1], 1 + nf)
     return True
 
 
 def in_grammar(prog):
     a = ast_block(prog)
-    return g_wf(a, False) and g_fchk(a, 1) and g_fneed(a, 1) <= REF_FUEL
+    return g_wf(a, False, False, True) and g_fchk(a, 1) and g_fneed(a, 1) <= REF_FUEL
 
 
 # ----------------------------------------------------------------------------
@@ -421,6 +452,14 @@ CORPUS = [
     [E(1), ("await", "true"), E(2)],
     [E(1), ("await", "false"), E(2)],
     [("await", "false")],
+    # `await false` as the very first action followed by loops / awaits: nothing after it may ever run
+    # (fixed in /repo: the first state stayed "empty" and a following while loop was placed in it)
+    [("await", "false"), ("while", C0, [("await", C1), E(1), ("continue",)])],
+    [("await", "false"), ("while", None, [("await", C0), E(1)])],
+    [("await", "false"), ("await", C0), E(1)],
+    [("await", "false"), ("call", [("await", NC0)]), ("while", C0, [("await", C1), E(1), ("continue",)])],
+    [("call", [("await", "false"), ("while", None, [("await", C0), E(1)]), ("await", C1)])],
+    [E(1), ("await", "false"), ("while", C0, [("await", C1), E(2)])],
     [E(1), ("await", C0)],
     [("if", C0, [("await", C1), E(1)], [E(2)]), E(3)],
     [("if", C0, [("await", C1), E(1)], [("await", NC0), E(2)]), E(3)],
@@ -658,7 +697,8 @@ def run(ck: common.Check, replay=None):
         g = Gen(ck.rng, max_stmts=10 if ck.tier == "quick" else 14, max_depth=3)
         for i in range(n_rand):
             progs.append((f"rand{i:04d}", g.program()))
-    run_programs(ck, progs, low=True)
+    # C01_NO_LOWER=1 switches the second (lowering-model) theorem off: only for timing comparisons
+    run_programs(ck, progs, low=os.environ.get("C01_NO_LOWER") is None)
 
 
 def vhdl_state_count(vhdl):
